@@ -15,6 +15,7 @@ func genExtra(repo, out string) {
 	genRoutes(repo, out)
 	genConfig(repo, out)
 	genLocks(repo, out)
+	genWire(repo, out)
 }
 
 // ---- C15: which configuration paths CheckUserInput checks -------------------------------------
